@@ -21,6 +21,7 @@ import (
 	"github.com/alibaba/sentinel-golang/core/base"
 	"github.com/alibaba/sentinel-golang/logging"
 	"github.com/alibaba/sentinel-golang/util"
+	"github.com/alibaba/sentinel-golang/util/vhook"
 	"github.com/pkg/errors"
 )
 
@@ -37,6 +38,7 @@ func (bla *BucketLeapArray) NewEmptyBucket() interface{} {
 }
 
 func (bla *BucketLeapArray) ResetBucketTo(bw *BucketWrap, startTime uint64) *BucketWrap {
+	vhook.Yield(110)
 	atomic.StoreUint64(&bw.BucketStart, startTime)
 	mb := bw.Value.Load().(*MetricBucket)
 	mb.reset()
